@@ -1,6 +1,7 @@
 package main
 
 import (
+	"go/token"
 	"fmt"
 	"go/ast"
 	"go/types"
@@ -106,7 +107,7 @@ func runC17(r *Run) {
 	r.Assume = []string{"bank keeper MintCoins/BurnCoins are the only ways to change supply", "DecCoins.Sub/Add are exact"}
 	r.rule("C17.R1", "who-may-mint: MintCoins/BurnCoins call sites of the custom modules are reachable only from the exomint epoch hook; the hook mints once, under identifier == params.EpochIdentifier and a non-zero reward, and forwards the same coins", 4)
 	r.rule("C17.R2", "move-all: AllocateTokens sends GetAllBalances(fee collector) to the distribution account unconditionally, before any early exit, and the booked total derives from the same value", 3)
-	r.rule("C17.R3", "booking balance: remainder-accumulator idiom in AllocateTokens and AllocateTokensToStakers; validator split = commission + (tokens - commission); zero-power arm books everything to the community pool", 5)
+	r.rule("C17.R3", "booking balance: remainder-accumulator idiom in AllocateTokens and AllocateTokensToStakers; validator split = commission + (tokens - commission); zero-power arm books everything to the community pool", 8)
 	r.rule("C17.R4", "portions are truncating (MulDecTruncate / QuoTruncate)", 3)
 	r.rule("C17.R5", "the distribution epoch hook is registered before the mint epoch hook", 1)
 
@@ -322,7 +323,61 @@ func runC17(r *Run) {
 			}
 		}
 		ok, probs := as.remainderPattern(total, map[string]int{"AllocateTokensToSingleStaker": 2})
+		// every validator of the set is allocated to: the validator loop of AllocateTokens is not left by `break`
+		{
+			brk := ""
+			ast.Inspect(at.Decl.Body, func(n ast.Node) bool {
+				if b, isB := n.(*ast.BranchStmt); isB && b.Tok == token.BREAK && b.Label == nil {
+					if lp, isL := at.innermostLoop(b).(*ast.RangeStmt); isL && strings.Contains(exprString(lp.X), "alidators") {
+						brk = at.pos(b)
+					}
+				}
+				return true
+			})
+			r.check(brk == "", "C17.R3", "AllocateTokens|every-validator", at.pos(at.Decl), "a validator that cannot be resolved is skipped; the validators after it still get their portions", "the validator loop of AllocateTokens is left by `break` at "+brk+": the portions of all later validators go to the community pool")
+		}
+		// the whole portion of a validator is booked: commission, stakers' share and outstanding rewards are
+		// written unconditionally (no early return between the split and the writes)
+		if vv := w.View("x/feedistribution/keeper", "Keeper.AllocateTokensToValidator"); vv != nil {
+			var miss []string
+			for _, nm := range []string{"SetValidatorAccumulatedCommission", "AllocateTokensToStakers", "SetValidatorOutstandingRewards"} {
+				cs := vv.CallsNamed(nm)
+				if len(cs) != 1 {
+					miss = append(miss, nm+" (not called exactly once)")
+					continue
+				}
+				for _, f := range vv.factsAt(cs[0], false) {
+					if vv.isSuccessOutcome(f) {
+						continue
+					}
+					miss = append(miss, nm+" (only under "+ifNot(f.Truth)+exprString(f.Atom)+")")
+				}
+			}
+			r.check(len(miss) == 0, "C17.R3", "AllocateTokensToValidator|booked-unconditionally", vv.pos(vv.Decl), "a validator's portion is always booked: commission, stakers' share, outstanding rewards", "not unconditional: "+strings.Join(miss, ", ")+" -- the caller still subtracts the portion from the remainder, so it is moved but booked to nobody")
+		}
 		r.check(ok, "C17.R3", "AllocateTokensToStakers|remainder", as.pos(as.Decl), "stakers' share = sum(staker rewards) + remainder -> community pool", strings.Join(probs, "; "))
+		// the fractions paid out sum to at most one: a staker's power enters the total exactly as often as the
+		// staker is queued for a payout (same block, same conditions)
+		{
+			var appendAs, accAs *ast.AssignStmt
+			ast.Inspect(as.Decl.Body, func(n ast.Node) bool {
+				a, isAs := n.(*ast.AssignStmt)
+				if !isAs || len(a.Lhs) != 1 || len(a.Rhs) != 1 {
+					return true
+				}
+				if c, isC := stripParens(a.Rhs[0]).(*ast.CallExpr); isC && exprString(c.Fun) == "append" && len(c.Args) == 2 && sameExpr(c.Args[0], a.Lhs[0]) && as.innermostLoop(a) != nil {
+					if bt, isB := as.Info.TypeOf(c.Args[1]).Underlying().(*types.Basic); isB && bt.Kind() == types.String {
+						appendAs = a
+					}
+				}
+				if as.addChainOn(a.Lhs[0], a.Rhs[0]) && as.innermostLoop(a) != nil && strings.Contains(strings.ToLower(exprString(a.Lhs[0])), "power") {
+					accAs = a
+				}
+				return true
+			})
+			okPair := appendAs != nil && accAs != nil && as.innermostBlock(appendAs) == as.innermostBlock(accAs)
+			r.check(okPair, "C17.R3", "AllocateTokensToStakers|counted-as-often-as-paid", as.pos(as.Decl), "a staker's power is added to the total exactly as often as the staker is queued for a payout", "the payout list and the total staker power are not extended in the same block under the same conditions: a staker reached several times is paid several fractions of a total that counts it once (the payouts exceed the share and `remaining.Sub` panics in BeginBlock)")
+		}
 	}
 	{
 		// validator split
